@@ -784,7 +784,7 @@ func (u *Unit) execBody(fn *ssa.Function, st0 *State, top bool) (*State, []Term)
 			for _, ins := range l.header.Instrs {
 				if p, ok := ins.(*ssa.Phi); ok && p.Comment == "rangeindex" {
 					cp := *l.spec
-					cp.Invariants = append([]Clause{{Label: "autoRangeIndex", Expr: "rangeindex >= -1"}}, cp.Invariants...)
+					cp.Invariants = append([]Clause{{Label: "autoRangeIndex", Expr: "rangeindex >= -1"}, {Label: "autoRangeUpper", Expr: "@rangeupper"}}, cp.Invariants...)
 					cp.autoRange = true
 					l.spec = &cp
 					con.Loops[l.ordinal] = l.spec
